@@ -10,6 +10,7 @@ import (
 	"time"
 
 	"github.com/cnotch/ipchub/av/codec"
+	"github.com/cnotch/ipchub/utils/vhook"
 	"github.com/cnotch/queue"
 	"github.com/cnotch/xlog"
 )
@@ -99,6 +100,7 @@ func (demuxer *Demuxer) process() {
 	}()
 
 	for !demuxer.closed {
+		vhook.At("conv.loop", demuxer)
 		p := demuxer.recvQueue.Pop()
 		if p == nil {
 			if !demuxer.closed {
